@@ -1,7 +1,6 @@
 package rules
 
 import (
-	"fmt"
 	"go/ast"
 	"go/token"
 	"go/types"
@@ -39,137 +38,7 @@ func c02Q4(r *core.R) {
 		return
 	}
 	info := m.info
-	// scratch buffers of the spawner
-	var bufs []types.Object
-	ast.Inspect(m.start.Decl.Body, func(n ast.Node) bool {
-		as, ok := n.(*ast.AssignStmt)
-		if !ok || len(as.Lhs) != 1 || len(as.Rhs) != 1 {
-			return true
-		}
-		call, ok := as.Rhs[0].(*ast.CallExpr)
-		if !ok || builtinName(info, call) != "make" {
-			return true
-		}
-		if sl, ok := info.TypeOf(call.Args[0]).Underlying().(*types.Slice); ok && types.Identical(sl.Elem(), types.Typ[types.Byte]) {
-			bufs = append(bufs, objOf(info, as.Lhs[0]))
-		}
-		return true
-	})
-	if len(bufs) < 3 {
-		r.Anchor("reader scratch buffers (make([]byte, K)) in the spawner")
-	}
-	// track each buffer through in-package parameters
-	type key struct {
-		o  types.Object
-		fn *FuncInfo
-	}
-	seen := map[types.Object]bool{}
-	var work []key
-	for _, b := range bufs {
-		work = append(work, key{b, m.start})
-	}
-	for len(work) > 0 {
-		k := work[len(work)-1]
-		work = work[:len(work)-1]
-		if seen[k.o] {
-			continue
-		}
-		seen[k.o] = true
-		par := parentsOf(r.P, k.fn)
-		c := "buf@" + k.fn.Name() + " " + k.o.Name()
-		bad := ""
-		var bpos token.Pos
-		nuse := 0
-		ast.Inspect(k.fn.Decl, func(n ast.Node) bool {
-			id, ok := n.(*ast.Ident)
-			if !ok || info.Uses[id] != k.o {
-				return true
-			}
-			nuse++
-			// climb through slice expressions of the buffer itself
-			var e ast.Node = id
-			for {
-				if se, ok := par[e].(*ast.SliceExpr); ok && se.X == e {
-					e = se
-					continue
-				}
-				if pe, ok := par[e].(*ast.ParenExpr); ok {
-					e = pe
-					continue
-				}
-				break
-			}
-			switch p := par[e].(type) {
-			case *ast.CallExpr:
-				if p.Fun == e {
-					return true
-				}
-				if bn := builtinName(info, p); bn == "len" || bn == "cap" {
-					return true
-				}
-				fn := callee(info, p)
-				switch {
-				case isPkgFunc(fn, "io", "ReadFull"), isPkgFunc(fn, "google.golang.org/protobuf/proto", "Unmarshal"):
-					return true
-				case fn != nil && fn.Name() == "Uint32" && fn.Pkg() != nil && fn.Pkg().Path() == "encoding/binary":
-					return true
-				case fn != nil && fn.Pkg() == m.pk.Types:
-					tf := findFunc(m.pk, funcName(fn))
-					if tf == nil {
-						bad, bpos = "passed to "+fn.Name(), id.Pos()
-						return true
-					}
-					idx := -1
-					for i, a := range p.Args {
-						if a == e {
-							idx = i
-						}
-					}
-					pi := 0
-					for _, fld := range tf.Decl.Type.Params.List {
-						for _, nm := range fld.Names {
-							if pi == idx {
-								work = append(work, key{info.Defs[nm], tf})
-							}
-							pi++
-						}
-					}
-					return true
-				default:
-					name := "a function value"
-					if fn != nil {
-						name = fn.FullName()
-					}
-					bad, bpos = "passed to "+name+", which may retain it", id.Pos()
-				}
-			case *ast.AssignStmt:
-				// buf = buf[:n] (re-slice of itself) is fine
-				for i, rh := range p.Rhs {
-					if rh == e {
-						if i < len(p.Lhs) && objOf(info, p.Lhs[i]) == k.o {
-							return true
-						}
-						bad, bpos = "assigned to `"+src(r.P.Fset, p.Lhs[min(i, len(p.Lhs)-1)])+"`", id.Pos()
-					}
-				}
-				for _, l := range p.Lhs {
-					if l == e {
-						return true // target of the re-slice
-					}
-				}
-			case *ast.Field:
-				return true // parameter declaration
-			default:
-				bad, bpos = fmt.Sprintf("used in %T", p), id.Pos()
-			}
-			return true
-		})
-		if bad != "" {
-			r.Bad(c, bpos, "scratch buffer %s is %s: it is overwritten by the next block while that reference is still alive, corrupting blocks already dispatched", k.o.Name(), bad)
-		} else {
-			r.OK(c, k.o.Pos(), "%d uses: only io.ReadFull, binary.BigEndian.Uint32, proto.Unmarshal, len, self re-slice, or passing on to a tracked parameter", nuse)
-		}
-	}
+	c02ScratchBuffers(r, m)
 	// no UnmarshalOptions, no unsafe in the package
 	nopt := 0
 	var optPos token.Pos
